@@ -65,7 +65,12 @@ func init() {
 		Knobs: SpecKnobs{AllForksInside: true, TwoAttesterSlashings: true},
 		Gen:   GenesisKnobs{MinVals: 48, MaxVals: 96, Eth1Share: 30, AboveShare: 12, BelowShare: 8},
 		Rates: OpRates{Exit: 8, PSlash: 4, ASlash: 4, BLSChange: 20, Deposit: 10},
-		Init:  func(c *Chain) { c.SpareShare = 65; c.VoteAlways = true; c.NoSkipBeforePhase0Deposit = true },
+		Init: func(c *Chain) {
+			c.SpareShare = 65
+			c.VoteAlways = true
+			c.NoSkipBeforePhase0Deposit = true
+			c.SlashExiting = true
+		},
 		BeforeBlock: func(c *Chain, p *ProposeCtx) {
 			// every operation kind at least once in every fork: add what this fork has not seen yet
 			f := p.Fork.String()
